@@ -55,8 +55,11 @@ CLAIMED = {
  "C09": ("Theorems c09_total (every byte string, any chain of present words / namespaces / vendor data: the decoder terminates in bounds), "
          "c09_refused (bad version, it_len < 8, > available, > 255), c09_length, c09_single_word (ALL 2^23 selections of the defined fields, all "
          "values, arbitrary padding/trailing bytes: the values at the specification's aligned little-endian offsets), c09_table (the table as "
-         "compiled equals the specification's), c09_band_channel (all 65536 frequencies). PARTIAL for multi-word chains: covered by c09_total "
-         "and the model-implementation correspondence (per-antenna words, vendor namespaces), no functional spec theorem.",
+         "compiled equals the specification's), c09_band_channel (all 65536 frequencies), c09_chain (EVERY well-formed chain of present words of "
+         "any length - namespace resets with per-antenna signal/antenna pairs, vendor namespaces with arbitrary skip lengths, vendor after "
+         "vendor, empty continuation words: the decoder returns exactly the fold of the field semantics over the structurally computed "
+         "aligned offsets), c09_chain_extends_single, c09_chain_decidable. The executable chain Spec is compared with the library on "
+         "generated chains.",
          "Rocq refinement proof by induction over the field list; differential correspondence"),
  "C10": ("Theorems c10_layout (for ALL 2^11 selections of carried fields and all values the generator emits exactly the rendered header), "
          "c10_valid_header (version 0, length field = bytes produced, present word, every field little-endian at its naturally aligned "
